@@ -65,9 +65,9 @@ def mapset_twins_merged(term, back):
 def run(tier, seed):
     v = lib.Verdict(PID, tier, seed, "exploration")
     d = lib.outdir(PID)
-    files = {k: os.path.join(d, f"{k}.ndjson") for k in ("ranges", "cross", "mut", "valid", "obs", "props")}
+    files = {k: os.path.join(d, f"{k}.ndjson") for k in ("ranges", "cross", "mut", "valid", "obs", "props", "builders")}
     r = lib.tlc("gen/Gen_Elixir.tla", "gen/Gen_Elixir.cfg", PID, "gen", workers=1,
-                env={"OUT_RANGES": files["ranges"], "OUT_CROSS": files["cross"], "OUT_MUT": files["mut"], "OUT_VALID": files["valid"], "OUT_PROPS": files["props"]})
+                env={"OUT_RANGES": files["ranges"], "OUT_CROSS": files["cross"], "OUT_MUT": files["mut"], "OUT_VALID": files["valid"], "OUT_PROPS": files["props"], "OUT_BUILDERS": files["builders"]})
     if r.rc != 0:
         raise lib.ToolError("Elixir universe generator failed")
     ranges, cross, muts, valid = (lib.read_ndjson(files[k]) for k in ("ranges", "cross", "mut", "valid"))
@@ -88,7 +88,7 @@ def run(tier, seed):
                           "members": [str(m) for m in members]})
         lib.write_ndjson(files["cross"], cross)
     props = lib.read_ndjson(files["props"])
-    lib.harness(["elixir-run", files["ranges"], files["cross"], files["mut"], files["valid"], files["obs"], files["props"]])
+    lib.harness(["elixir-run", files["ranges"], files["cross"], files["mut"], files["valid"], files["obs"], files["props"], files["builders"]])
     obs = lib.read_ndjson(files["obs"])
     by = {}
     for o in obs:
@@ -207,15 +207,6 @@ def run(tier, seed):
         return [[e["e"][0], e["e"][1]] for e in t["e"]]
 
     for o in by.get("builder", []):
-        if o.get("methods"):
-            v.case("builder methods")
-            if not lib.same_value(pairs_of_list(o["keyword"]), o["pairs"]):
-                v.violation("KeywordListBuilder (put / put_atom / put_flag / put_term / put_if / put_some / extend) did not build the pairs that were put, in order", {"built": o["keyword"], "expected_pairs": o["pairs"]})
-            if not lib.same_value(o["map"], {"k": "map", "kv": o["map_pairs"]}):
-                v.violation("AtomKeyMapBuilder (insert / insert_atom / insert_term / insert_if / insert_some / extend) did not build the entries that were inserted", {"built": o["map"], "expected_entries": o["map_pairs"]})
-            if not lib.same_value(o["struct"], {"k": "map", "kv": o["struct_pairs"]}):
-                v.violation("AtomKeyMapBuilder::build_struct did not add the __struct__ entry to the entries inserted", {"built": o["struct"], "expected_entries": o["struct_pairs"]})
-            continue
         case = {"builder_entries": o["n"]}
         v.case("builder " + str(o["n"]))
         want = o["pairs"]
@@ -277,9 +268,29 @@ def run(tier, seed):
             v.violation("normalize_proplist does not keep the pairs (bare atoms as {Atom, true}) in order", {**case, "got": o["normalized"], "expected": c["normalized"]})
         if mapset(o["recursive"]) != mapset(c["recursive"]):
             (v.violation if not c["dup"] else v.add_drift)("to_map_recursive differs from the recursive conversion of the spec", {**case, "got": o["recursive"], "expected": c["recursive"]})
+    # ---- builder call sequences of Elixir!BuilderCases
+    bcases = lib.read_ndjson(files["builders"])
+    if len(by.get("builder_calls", [])) != len(bcases) or not bcases:
+        raise lib.ToolError("harness did not answer every builder call sequence")
+    for c, o in zip(bcases, by["builder_calls"]):
+        v.case("builder calls " + json.dumps(c["ops"]))
+        case = {"calls": [[x["op"]] + ([x["pairs"]] if x["op"] == "extend" else [x["key"], x["val"]] + ([x["on"]] if x["op"] in ("put_if", "put_some") else [])) for x in c["ops"]]}
+        for name in ("keyword", "keyword_wire"):
+            if o[name] is None or not lib.same_value(o[name], c["keyword"]):
+                v.violation(f"KeywordListBuilder: {name} is not the pairs that were put, one per effective call, in call order", {**case, "built": o[name], "expected": c["keyword"]})
+        want = {"k": "map", "kv": c["map"]}
+        for name in ("map", "map_wire"):
+            if o[name] is None or mapset(o[name]) != mapset(want):
+                v.violation(f"AtomKeyMapBuilder: {name} does not hold, per key, the value that was put last", {**case, "built": o[name], "expected_entries": c["map"]})
+        want_s = {"k": "map", "kv": c["map"] + [[{"k": "atom", "b": list(b"__struct__")}, {"k": "atom", "b": list(b"Elixir.Mod")}]]}
+        for name in ("struct", "struct_wire"):
+            if o[name] is None or mapset(o[name]) != mapset(want_s):
+                v.violation(f"AtomKeyMapBuilder::build_struct: {name} is not the entries put last per key plus __struct__", {**case, "built": o[name], "expected_entries": want_s["kv"]})
+        if o["keyword_len"] != o["effective_calls"] or o["map_len"] != len(c["map"]):
+            v.violation("a builder's len() is not the number of pairs / entries it builds", {**case, "keyword_len": o["keyword_len"], "map_len": o["map_len"], "pairs": o["effective_calls"], "entries": len(c["map"])})
     v.sample({"range": by["range"][7]["first"] + ".." + by["range"][7]["last"] + "//" + by["range"][7]["step"], "len": by["range"][7]["len"]})
     v.cov["records"] = {"ranges_same_anchor": len(ranges), "ranges_cross_anchor": len(cross), "valid_struct_terms": len(valid), "mutated_struct_terms": len(muts),
-                        "wrapper_round_trips": len(by.get("wrapper", [])), "builder_cases": len(by.get("builder", [])), "proplists": len(by.get("proplist", [])), "proplist_cases_from_spec": len(props)}
+                        "wrapper_round_trips": len(by.get("wrapper", [])), "builder_cases": len(by.get("builder", [])), "proplists": len(by.get("proplist", [])), "proplist_cases_from_spec": len(props), "builder_call_sequences_from_spec": len(bcases)}
     v.cov["rule"] = ("ranges: first, last in {min..min+5, -3..3, max-5..max} (same anchor), step in {-3..3 \\ {0}... incl. 0, min, max}; len / size_hint / is_empty / first 40 iterated elements / membership of "
                      "every element and of neighbours compared with Elixir.tla; struct terms: from_term on the built term and on decode(spec encoding); distinct = record")
     v.assumptions += ["TLC integers are 32-bit: same-anchor arithmetic is exact in the spec, the six cross-anchor rows were derived by hand and are checked for internal consistency by Python big integers",
